@@ -824,6 +824,7 @@ def _oracle(scn, S, plan, d):
             print("C17 watchdog: plan=%s scenario=%s" % (res["plan"], json.dumps(scn)), file=sys.stderr)
             continue
         S.count("runs")
+        S.evaluations += 1          # one evaluation = one run of xz with one injected fault (plus one per scenario for the fault-free run)
         tr, fired, outcome = evaluate(plan, judge, S, res)
         S.count("kind:" + res["kind"])
         if DEBUG:
